@@ -8,4 +8,4 @@ export GOCACHE="$PWD/.build/gocache"
 cp /repo/go.sum harness/go.sum
 (cd harness && go build -o ../.build/bin/extract ./cmd/extract && go build -tags verif -o ../.build/bin/corr ./cmd/corr)
 .build/bin/extract /repo lean/Wl2kVerif/Gen
-(cd lean && lake build)
+(cd lean && lake build && lake build $(ls Wl2kVerif/Props/*.lean | sed -e 's#/#.#g' -e 's#\.lean$##'))
